@@ -6,6 +6,7 @@ package main
 
 import (
 	"bytes"
+	"crypto/sha256"
 	"encoding/json"
 	"fmt"
 	"math/big"
@@ -278,6 +279,10 @@ func runSchedule(sc *scenario, prefix []int, expect []vsched.PointInfo, logEvent
 }
 
 func runScheduleOpt(sc *scenario, prefix []int, expect []vsched.PointInfo, logEvents bool, cold bool) *result {
+	return runScheduleFull(sc, prefix, expect, logEvents, cold, false)
+}
+
+func runScheduleFull(sc *scenario, prefix []int, expect []vsched.PointInfo, logEvents bool, cold bool, keyed bool) *result {
 	if cold {
 		restoreCold()
 	}
@@ -311,7 +316,61 @@ func runScheduleOpt(sc *scenario, prefix []int, expect []vsched.PointInfo, logEv
 		}
 		return 0
 	}
-	r.exec = vsched.Run(bodies, choose, logEvents)
+	if keyed {
+		// A thread's private state is a function of what it has observed:
+		// the contents of each package-level variable at the moment it
+		// accessed it, and the values synchronisation operations returned.
+		chains := make([][32]byte, len(sc.threads)+1)
+		globals := edwards25519.VerifGlobals()
+		for k, v := range field.VerifGlobals() {
+			globals[k] = v
+		}
+		lastVer, lastFull := -1, [32]byte{}
+		full := func(e *vsched.Exec) [32]byte {
+			if e.Version != lastVer {
+				lastFull = vsched.HashGlobalsFull(globals)
+				lastVer = e.Version
+			}
+			return lastFull
+		}
+		onObserve := func(e *vsched.Exec, id int, kind, name string, val uint64) {
+			h := sha256.New()
+			h.Write(chains[id][:])
+			h.Write([]byte(kind))
+			if kind == "var" {
+				if p, ok := globals[name]; ok {
+					g := vsched.HashGlobalsFull(map[string]any{name: p})
+					h.Write(g[:])
+				} else {
+					g := full(e)
+					h.Write(g[:])
+				}
+			} else {
+				var b [8]byte
+				for i := range b {
+					b[i] = byte(val >> (8 * i))
+				}
+				h.Write(b[:])
+			}
+			copy(chains[id][:], h.Sum(nil))
+		}
+		keyFn := func(e *vsched.Exec) [16]byte {
+			h := sha256.New()
+			h.Write(e.CoreState())
+			g := full(e)
+			h.Write(g[:])
+			h.Write(vsync.RegisteredState())
+			for _, c := range chains {
+				h.Write(c[:])
+			}
+			var k [16]byte
+			copy(k[:], h.Sum(nil))
+			return k
+		}
+		r.exec = vsched.RunKeyed(bodies, choose, logEvents, keyFn, onObserve)
+	} else {
+		r.exec = vsched.Run(bodies, choose, logEvents)
+	}
 	r.globals = globalsHash()
 	return r
 }
@@ -484,6 +543,9 @@ type explorer struct {
 	fails     int
 	limit     int64
 	capped    bool
+	unbounded bool              // no preemption bound; prune on complete state keys
+	visited   map[[16]byte]bool // states whose continuations have been explored (unbounded mode)
+	pruned    int64
 	shardW    int // this worker
 	shardK    int // number of workers (0/1: no sharding)
 	topOrd    int
@@ -503,6 +565,8 @@ type shardOut struct {
 	Viol      []shardViol      `json:"viol"`
 	Fails     int              `json:"fails"`
 	Capped    bool             `json:"capped"`
+	States    int64            `json:"states"`
+	Pruned    int64            `json:"pruned"`
 }
 
 func (x *explorer) explore(prefix []int, expect []vsched.PointInfo) {
@@ -523,8 +587,11 @@ func (x *explorer) explore(prefix []int, expect []vsched.PointInfo) {
 		x.expandFrom(r.exec, prefix)
 		return
 	}
-	r := runSchedule(x.sc, prefix, expect, false)
+	r := runScheduleFull(x.sc, prefix, expect, false, true, x.unbounded)
 	x.schedules++
+	if x.unbounded && os.Getenv("VERIF_C18_UNBOUNDED_DEBUG") != "" && x.schedules%200 == 0 {
+		fmt.Printf("  .. schedules=%d states=%d pruned=%d prefixlen=%d points=%d\n", x.schedules, len(x.visited), x.pruned, len(prefix), len(r.exec.Points))
+	}
 	e := r.exec
 	x.byPreempt[preemptions(e.Points, e.Choices, len(e.Choices))]++
 	if len(e.Points) > x.maxPoints {
@@ -547,12 +614,22 @@ func (x *explorer) explore(prefix []int, expect []vsched.PointInfo) {
 func (x *explorer) expandFrom(e *vsched.Exec, prefix []int) {
 	for i := len(prefix); i < len(e.Choices); i++ {
 		p := e.Points[i]
-		cost := preemptions(e.Points, e.Choices, i)
-		if p.RunningEnabled {
-			cost++
-		}
-		if cost > x.bound {
-			continue
+		if x.unbounded {
+			// every continuation of an already visited state has been (or is
+			// being) explored from its first visit
+			if x.visited[e.Keys[i]] {
+				x.pruned++
+				break
+			}
+			x.visited[e.Keys[i]] = true
+		} else {
+			cost := preemptions(e.Points, e.Choices, i)
+			if p.RunningEnabled {
+				cost++
+			}
+			if cost > x.bound {
+				continue
+			}
 		}
 		for alt := 1; alt < len(p.Enabled); alt++ {
 			if len(prefix) == 0 && x.shardK > 1 {
@@ -751,7 +828,7 @@ func readOnlyCases() []roCase {
 }
 
 func runC18(ctx *core.Ctx) {
-	ctx.Rule("stateless depth-first exploration of all schedules, up to a preemption bound, of 10 closed concurrent harnesses (2-4 threads, 1-4 calls each, all starting from a cold process image restored from a generated snapshot of every package-level variable) over the real library, instrumented at check time: sync/sync.atomic replaced by a shim whose operations are scheduling points and happens-before edges, plus a scheduling point and vector-clock race check before every statement that mentions a mutable package-level variable (classification recomputed from the tree). Oracle on every complete schedule: results equal the sequential ones (and the math/big model), no happens-before race, no deadlock, per-variable write counts equal the sequential execution's (constructed exactly once). states = scheduling points visited, transitions = thread steps executed, schedules = complete executions")
+	ctx.Rule("stateless depth-first exploration of all schedules up to a preemption bound - and, for the scenarios named in the evidence, of ALL interleavings with pruning on complete state keys (scheduler state, vector clocks, full package memory incl. sync objects, per-thread observation chains) - of 10 closed concurrent harnesses (2-4 threads, 1-4 calls each, all starting from a cold process image restored from a generated snapshot of every package-level variable) over the real library, instrumented at check time: sync/sync.atomic replaced by a shim whose operations are scheduling points and happens-before edges, plus a scheduling point and vector-clock race check before every statement that mentions a mutable package-level variable (classification recomputed from the tree). Oracle on every complete schedule: results equal the sequential ones (and the math/big model), no happens-before race, no deadlock, per-variable write counts equal the sequential execution's (constructed exactly once). states = scheduling points visited, transitions = thread steps executed, schedules = complete executions")
 	ctx.Assume("scheduling points at synchronisation operations and at mentions of mutable package-level variables suffice (accesses through escaped pointers are covered by the value oracle and the sampled -race pass)",
 		"2-4 threads; more threads add no new kind of interaction for a once-only table (argument, not enumeration)",
 		"the Go memory model is approximated by sequential consistency plus vector-clock happens-before")
@@ -760,9 +837,20 @@ func runC18(ctx *core.Ctx) {
 	if os.Getenv("VERIF_C18_SHARD") == "" {
 		subReadOnly.RunList(ctx, readOnlyCases())
 	}
-	var totalSched, totalPoints, totalSteps int64
+	var totalSched, totalPoints, totalSteps, totalStates int64
 	report := map[string]any{}
 	scs := scenarios()
+	if dbg := os.Getenv("VERIF_C18_UNBOUNDED_DEBUG"); dbg != "" {
+		var si int
+		fmt.Sscan(dbg, &si)
+		sc := scs[si]
+		seq := sequentialRef(&sc)
+		x := &explorer{sc: &sc, seq: seq, unbounded: true, visited: map[[16]byte]bool{}, byPreempt: map[int]int64{}, outcomes: map[string]int64{}, ctx: ctx, limit: 5_000_000}
+		t0 := time.Now()
+		x.explore(nil, nil)
+		fmt.Printf("unbounded %s: schedules=%d states=%d pruned=%d fails=%d maxpoints=%d byPreempt=%v in %v\n", sc.name, x.schedules, len(x.visited), x.pruned, x.fails, x.maxPoints, x.byPreempt, time.Since(t0))
+		os.Exit(0)
+	}
 	if spec := os.Getenv("VERIF_C18_SHARD"); spec != "" {
 		var si, w, k int
 		var out string
@@ -774,19 +862,32 @@ func runC18(ctx *core.Ctx) {
 		sc := scs[si]
 		seq := sequentialRef(&sc)
 		x := &explorer{sc: &sc, seq: seq, bound: boundFor(ctx, &sc), byPreempt: map[int]int64{}, outcomes: map[string]int64{}, ctx: ctx, limit: int64(tierLimit(ctx)), shardW: w, shardK: k}
+		if len(f) > 4 && f[4] == "u" {
+			// every interleaving (no preemption bound), pruned on complete state keys
+			x.unbounded, x.visited, x.shardK = true, map[[16]byte]bool{}, 1
+		}
 		x.explore(nil, nil)
-		b, _ := json.Marshal(shardOut{x.schedules, x.byPreempt, x.maxPoints, x.outcomes, x.viol, x.fails, x.capped})
+		b, _ := json.Marshal(shardOut{x.schedules, x.byPreempt, x.maxPoints, x.outcomes, x.viol, x.fails, x.capped, int64(len(x.visited)), x.pruned})
 		if err := os.WriteFile(out, b, 0o644); err != nil {
 			core.InternalError("%v", err)
 		}
 		os.Exit(0)
 	}
 	const K = 4
-	type job struct{ si, w int }
+	type job struct {
+		si, w     int
+		unbounded bool
+	}
 	var jobs []job
 	for si := range scs {
 		for w := 0; w < K; w++ {
-			jobs = append(jobs, job{si, w})
+			jobs = append(jobs, job{si, w, false})
+		}
+	}
+	// unbounded passes (all interleavings, state pruning): one process each
+	for si, sc := range scs {
+		if unboundedFor(ctx, sc.name) {
+			jobs = append(jobs, job{si, 0, true})
 		}
 	}
 	outs := make([]shardOut, len(jobs))
@@ -809,7 +910,12 @@ func runC18(ctx *core.Ctx) {
 				args = append(args, "-deadline", time.Until(ctx.Deadline).String())
 			}
 			cmd := exec.Command(exe, args...)
-			cmd.Env = append(os.Environ(), fmt.Sprintf("VERIF_C18_SHARD=%d|%d|%d|%s", j.si, j.w, K, of), "GOMAXPROCS=2")
+			mode := "b"
+			if j.unbounded {
+				mode = "u"
+				of = fmt.Sprintf("%s/s%d_unbounded.json", dir, j.si)
+			}
+			cmd.Env = append(os.Environ(), fmt.Sprintf("VERIF_C18_SHARD=%d|%d|%d|%s|%s", j.si, j.w, K, of, mode), "GOMAXPROCS=2")
 			if b, err := cmd.CombinedOutput(); err != nil {
 				done <- fmt.Errorf("shard %v: %v\n%s", j, err, b)
 				return
@@ -845,11 +951,23 @@ func runC18(ctx *core.Ctx) {
 			}
 		}
 		agg := shardOut{ByPreempt: map[int]int64{}, Outcomes: map[string]int64{}}
+		var unb *shardOut
 		for ji, j := range jobs {
 			if j.si != si {
 				continue
 			}
 			o := outs[ji]
+			if j.unbounded {
+				oo := o
+				unb = &oo
+				agg.Fails += o.Fails
+				for _, v := range o.Viol {
+					ctx.ReportViolation("C18/schedule", len(v.Case.Choices), v.Case, v.Msg)
+				}
+				totalSched += o.Schedules
+				totalStates += o.States
+				continue
+			}
 			agg.Schedules += o.Schedules
 			agg.Fails += o.Fails
 			agg.Capped = agg.Capped || o.Capped
@@ -869,7 +987,20 @@ func runC18(ctx *core.Ctx) {
 		bound := boundFor(ctx, &sc)
 		totalSched += agg.Schedules
 		totalPoints += int64(agg.MaxPoints)
-		report[sc.name] = map[string]any{"threads": len(sc.threads), "preemption_bound": bound, "schedules": agg.Schedules, "schedules_by_preemptions": agg.ByPreempt,
+		var unbRep any = "not run in this tier"
+		if unb != nil {
+			maxPre := 0
+			for k := range unb.ByPreempt {
+				if k > maxPre {
+					maxPre = k
+				}
+			}
+			unbRep = map[string]any{"schedules": unb.Schedules, "distinct_states": unb.States, "pruned_revisits": unb.Pruned, "max_preemptions_in_a_schedule": maxPre, "complete": !unb.Capped}
+			if unb.Capped {
+				ctx.NotExhaustive(fmt.Sprintf("%s: unbounded exploration stopped by cap/deadline", sc.name))
+			}
+		}
+		report[sc.name] = map[string]any{"unbounded_all_interleavings": unbRep, "threads": len(sc.threads), "preemption_bound": bound, "schedules": agg.Schedules, "schedules_by_preemptions": agg.ByPreempt,
 			"max_scheduling_points_per_execution": agg.MaxPoints, "distinct_outcomes": len(agg.Outcomes), "sequential_access_profile": seq.counts, "capped": agg.Capped, "failing_schedules": agg.Fails}
 		if agg.Capped {
 			ctx.NotExhaustive(fmt.Sprintf("%s: stopped by cap/deadline inside preemption bound %d after %d schedules", sc.name, bound, agg.Schedules))
@@ -883,7 +1014,7 @@ func runC18(ctx *core.Ctx) {
 		ctx.Sample(map[string]any{"scenario": sc.name, "threads": len(sc.threads), "schedules": agg.Schedules, "example_schedule_choices": agg.exampleOutcome()})
 		totalSteps += agg.Schedules * int64(agg.MaxPoints)
 	}
-	ctx.AddStates(totalPoints)
+	ctx.AddStates(totalPoints + totalStates)
 	ctx.AddTransitions(totalSteps)
 	ctx.AddTraces(totalSched)
 	ctx.AddEvals(totalSched)
@@ -932,6 +1063,18 @@ func boundFor(ctx *core.Ctx, sc *scenario) int {
 		return 3
 	}
 	return 4
+}
+
+// unboundedFor: scenarios explored without a preemption bound (every
+// interleaving at the granularity of visible operations, with state pruning).
+func unboundedFor(ctx *core.Ctx, name string) bool {
+	switch name[:3] {
+	case "S1 ", "S6 ":
+		return true
+	case "S2 ", "S3 ", "S5 ", "S7 ", "S8 ":
+		return !ctx.Quick()
+	}
+	return false
 }
 
 func tierLimit(ctx *core.Ctx) int {
